@@ -19,7 +19,7 @@ use yash_env::job::{Pid, ProcessResult, ProcessState};
 use yash_env::semantics::ExitStatus;
 use yash_env::system::r#virtual::{Process, SIGCONT, SIGKILL, SIGSTOP, SIGTERM, SIGUSR1, VirtualSystem};
 use yash_env::system::r#virtual::SIGCHLD;
-use yash_env::system::{CaughtSignals as _, Disposition, Errno, Exit as _, SendSignal as _, Sigaction as _, Sigmask as _, SigmaskOp, Wait as _};
+use yash_env::system::{CaughtSignals as _, Disposition, Errno, Exit as _, SendSignal as _, SetPgid as _, Sigaction as _, Sigmask as _, SigmaskOp, Wait as _};
 
 #[derive(Clone, Copy, Debug, Serialize, Deserialize, PartialEq)]
 pub enum Sig {
@@ -46,6 +46,12 @@ pub enum KOp {
     Action(u8, bool, u8),
     /// slot p waits for its child in slot c (255: any child)
     Wait(u8, u8),
+    /// slot p calls setpgid(pid of slot t, G) where G is the pid of slot g
+    /// (255: 0, i.e. a group of its own)
+    SetPgid(u8, u8, u8),
+    /// slot `from` sends the signal to the process group slot g is in
+    /// (255: its own group, `kill(0, ...)`)
+    KillGroup(u8, u8, Sig),
 }
 
 #[derive(Clone, Debug, Serialize, Deserialize, PartialEq)]
@@ -57,6 +63,8 @@ pub fn generate(rng: &mut Rng, long: bool) -> KHist {
     let n = rng.range(3, if long { 45 } else { 22 });
     let w_wait = rng.range(2, 8);
     let w_kill = rng.range(2, 8);
+    // (half of the histories use process groups)
+    let groups = rng.bool();
     let mut ops = Vec::new();
     let slot = |rng: &mut Rng| rng.below(6) as u8;
     for step in 0..n {
@@ -64,7 +72,7 @@ pub fn generate(rng: &mut Rng, long: bool) -> KHist {
             ops.push(KOp::Fork(slot(rng)));
             continue;
         }
-        let x = rng.below(w_wait + w_kill + 10);
+        let x = rng.below(w_wait + w_kill + if groups { 12 } else { 10 });
         ops.push(if x < w_wait {
             KOp::Wait(slot(rng), if rng.below(3) == 0 { 255 } else { slot(rng) })
         } else if x < w_wait + w_kill {
@@ -78,6 +86,12 @@ pub fn generate(rng: &mut Rng, long: bool) -> KHist {
                 0..=3 => KOp::Fork(slot(rng)),
                 4..=5 => KOp::Exit(slot(rng), *rng.pick(&[0u8, 1, 7, 42])),
                 6..=7 => KOp::Block(slot(rng), rng.bool(), rng.bool()),
+                8 if groups => KOp::SetPgid(slot(rng), slot(rng), if rng.below(3) == 0 { 255 } else { slot(rng) }),
+                9 if groups => KOp::KillGroup(
+                    slot(rng),
+                    if rng.below(4) == 0 { 255 } else { slot(rng) },
+                    *rng.pick(&[Sig::Term, Sig::Stop, Sig::Cont, Sig::Cont, Sig::Usr1, Sig::Null, Sig::Kill]),
+                ),
                 _ => KOp::Action(slot(rng), rng.bool(), rng.below(3) as u8),
             }
         });
@@ -97,6 +111,7 @@ enum St {
 #[derive(Clone, Debug)]
 struct MProc {
     pid: Pid,
+    pgid: Pid,
     parent: Option<usize>,
     st: St,
     /// a stop / continue that the parent has not been told about yet
@@ -136,8 +151,15 @@ pub fn run(h: &KHist, reach: &mut BTreeMap<&'static str, u64>) -> Option<(String
         state: Rc::clone(&state),
         process_id: pid,
     };
+    // (the first process starts in group 1, and `kill(-1, ...)` means every
+    // process: it gets a group of its own first)
+    if root.setpgid(Pid(0), Pid(0)).is_err() {
+        return Some(("setpgid-result".into(), "the first process cannot make a group of its own".into()));
+    }
+    let root_pgid = state.borrow().processes[&root.process_id].pgid();
     let mut procs: Vec<MProc> = vec![MProc {
         pid: root.process_id,
+        pgid: root_pgid,
         parent: None,
         st: St::Running,
         unreported: false,
@@ -175,6 +197,67 @@ pub fn run(h: &KHist, reach: &mut BTreeMap<&'static str, u64>) -> Option<(String
             }
             _ => {} // ignored or caught: no state change
         }
+    }
+
+    // model: signal `sig` reaches process t (which exists and has not terminated)
+    fn hit(procs: &mut Vec<MProc>, t: usize, sig: Sig, reach: &mut BTreeMap<&'static str, u64>, term: i64, kill: i64) {
+            match sig {
+                Sig::Null => {}
+                Sig::Kill => {
+                    procs[t].st = St::Zombie(384 + kill);
+                    procs[t].unreported = false;
+                    procs[t].pending.clear();
+                }
+                Sig::Stop => {
+                    if procs[t].st == St::Running {
+                        procs[t].st = St::Stopped;
+                        procs[t].unreported = true;
+                    }
+                }
+                Sig::Cont => {
+                    if procs[t].st == St::Stopped {
+                        procs[t].st = St::Running;
+                        procs[t].unreported = true;
+                        *reach.entry("stopped process continued").or_insert(0) += 1;
+                        // what arrived while stopped is delivered now
+                        let usr1 = SIGUSR1.as_raw() as i64;
+                        let deliverable: Vec<&'static str> = ["TERM", "USR1"]
+                            .into_iter()
+                            .filter(|name| procs[t].pending.contains(name) && !procs[t].blocked.contains(name))
+                            .collect();
+                        let fatal: Vec<i64> = deliverable
+                            .iter()
+                            .filter(|name| procs[t].action.get(*name).copied().unwrap_or(0) == 0)
+                            .map(|name| 384 + if *name == "TERM" { term } else { usr1 })
+                            .collect();
+                        for name in deliverable {
+                            if procs[t].st == St::Running {
+                                procs[t].pending.remove(name);
+                                deliver(procs, t, name, term);
+                            }
+                        }
+                        if fatal.len() > 1 {
+                            procs[t].alts = fatal;
+                        }
+                    }
+                }
+                Sig::Term | Sig::Usr1 => {
+                    let name = if sig == Sig::Term { "TERM" } else { "USR1" };
+                    let ignored = procs[t].action.get(name).copied().unwrap_or(0) == 1;
+                    if procs[t].blocked.contains(name) {
+                        procs[t].pending.insert(name);
+                    } else if procs[t].st == St::Stopped {
+                        // held back until SIGCONT (an ignored signal may
+                        // be discarded at once or then)
+                        if !ignored {
+                            procs[t].pending.insert(name);
+                            *reach.entry("signal sent to a stopped process").or_insert(0) += 1;
+                        }
+                    } else {
+                        deliver(procs, t, name, term);
+                    }
+                }
+            }
     }
 
     for (i, op) in h.ops.iter().enumerate() {
@@ -229,63 +312,7 @@ pub fn run(h: &KHist, reach: &mut BTreeMap<&'static str, u64>) -> Option<(String
                 // model
                 let want: Result<(), Errno> = if procs[t].st == St::Reaped { Err(Errno::ESRCH) } else { Ok(()) };
                 if want.is_ok() && !matches!(procs[t].st, St::Zombie(_)) {
-                    match sig {
-                        Sig::Null => {}
-                        Sig::Kill => {
-                            procs[t].st = St::Zombie(384 + kill);
-                            procs[t].unreported = false;
-                            procs[t].pending.clear();
-                        }
-                        Sig::Stop => {
-                            if procs[t].st == St::Running {
-                                procs[t].st = St::Stopped;
-                                procs[t].unreported = true;
-                            }
-                        }
-                        Sig::Cont => {
-                            if procs[t].st == St::Stopped {
-                                procs[t].st = St::Running;
-                                procs[t].unreported = true;
-                                *reach.entry("stopped process continued").or_insert(0) += 1;
-                                // what arrived while stopped is delivered now
-                                let usr1 = SIGUSR1.as_raw() as i64;
-                                let deliverable: Vec<&'static str> = ["TERM", "USR1"]
-                                    .into_iter()
-                                    .filter(|name| procs[t].pending.contains(name) && !procs[t].blocked.contains(name))
-                                    .collect();
-                                let fatal: Vec<i64> = deliverable
-                                    .iter()
-                                    .filter(|name| procs[t].action.get(*name).copied().unwrap_or(0) == 0)
-                                    .map(|name| 384 + if *name == "TERM" { term } else { usr1 })
-                                    .collect();
-                                for name in deliverable {
-                                    if procs[t].st == St::Running {
-                                        procs[t].pending.remove(name);
-                                        deliver(&mut procs, t, name, term);
-                                    }
-                                }
-                                if fatal.len() > 1 {
-                                    procs[t].alts = fatal;
-                                }
-                            }
-                        }
-                        Sig::Term | Sig::Usr1 => {
-                            let name = if *sig == Sig::Term { "TERM" } else { "USR1" };
-                            let ignored = procs[t].action.get(name).copied().unwrap_or(0) == 1;
-                            if procs[t].blocked.contains(name) {
-                                procs[t].pending.insert(name);
-                            } else if procs[t].st == St::Stopped {
-                                // held back until SIGCONT (an ignored signal may
-                                // be discarded at once or then)
-                                if !ignored {
-                                    procs[t].pending.insert(name);
-                                    *reach.entry("signal sent to a stopped process").or_insert(0) += 1;
-                                }
-                            } else {
-                                deliver(&mut procs, t, name, term);
-                            }
-                        }
-                    }
+                    hit(&mut procs, t, *sig, reach, term, kill);
                 }
                 // the sender may have stopped or killed itself: then the call
                 // does not return
@@ -343,6 +370,86 @@ pub fn run(h: &KHist, reach: &mut BTreeMap<&'static str, u64>) -> Option<(String
                 procs[k].action.insert(name, *act);
                 if *act == 1 {
                     // setting a signal to be ignored may discard a pending instance
+                }
+            }
+            KOp::SetPgid(p, t, g) => {
+                let (Some(k), Some(t)) = (live(&procs, *p), live(&procs, *t)) else { continue };
+                // (a target that has terminated is left out: what setpgid says
+                // about a zombie differs between kernels)
+                if procs[k].st != St::Running || !matches!(procs[t].st, St::Running | St::Stopped) {
+                    continue;
+                }
+                let new = if *g == 255 { procs[t].pid } else { procs[*g as usize % procs.len()].pid };
+                let arg = if *g == 255 { Pid(0) } else { new };
+                let got = sys_of(procs[k].pid).setpgid(procs[t].pid, arg);
+                let related = t == k || procs[t].parent == Some(k);
+                // a group exists as long as it has a member that has not been reaped
+                let group_exists = new == procs[t].pid || procs.iter().any(|m| m.pgid == new && m.st != St::Reaped);
+                let ok = match (related, group_exists) {
+                    (true, true) => got == Ok(()),
+                    (false, true) => got == Err(Errno::ESRCH),
+                    (true, false) => got == Err(Errno::EPERM),
+                    // (both wrong: which error comes first is not specified)
+                    (false, false) => matches!(got, Err(Errno::ESRCH | Errno::EPERM)),
+                };
+                if !ok {
+                    fail!(
+                        "setpgid-result",
+                        "op #{i} {op:?}: setpgid({}, {}) by {} returned {got:?}; the target {} a child of the caller or the caller itself, the group {}",
+                        procs[t].pid,
+                        arg,
+                        procs[k].pid,
+                        if related { "is" } else { "is not" },
+                        if group_exists { "exists" } else { "does not exist (no member that has not been reaped)" }
+                    );
+                }
+                if got.is_ok() {
+                    procs[t].pgid = new;
+                    *reach.entry("process moved to another group").or_insert(0) += 1;
+                }
+            }
+            KOp::KillGroup(from, g, sig) => {
+                let Some(f) = live(&procs, *from) else { continue };
+                if procs[f].st != St::Running {
+                    continue;
+                }
+                let group = if *g == 255 { procs[f].pgid } else { procs[*g as usize % procs.len()].pgid };
+                let target = if *g == 255 { Pid(0) } else { Pid(-group.0) };
+                let number = match sig {
+                    Sig::Term => Some(SIGTERM),
+                    Sig::Kill => Some(SIGKILL),
+                    Sig::Stop => Some(SIGSTOP),
+                    Sig::Cont => Some(SIGCONT),
+                    Sig::Usr1 => Some(SIGUSR1),
+                    Sig::Null => None,
+                };
+                let got = poll_now(sys_of(procs[f].pid).kill(target, number));
+                // a reaped process no longer exists; a zombie does but is not affected
+                let members: Vec<usize> = (0..procs.len()).filter(|j| procs[*j].pgid == group && procs[*j].st != St::Reaped).collect();
+                let want: Result<(), Errno> = if members.is_empty() { Err(Errno::ESRCH) } else { Ok(()) };
+                if members.len() > 1 {
+                    *reach.entry("signal sent to a group of several processes").or_insert(0) += 1;
+                }
+                for t in &members {
+                    if !matches!(procs[*t].st, St::Zombie(_)) {
+                        hit(&mut procs, *t, *sig, reach, term, kill);
+                    }
+                }
+                let self_hit = members.contains(&f) && procs[f].st != St::Running;
+                match got {
+                    Poll::Ready(r) => {
+                        if r != want {
+                            fail!("kill-result", "op #{i} {op:?}: kill({target}) returned {r:?}, the model says {want:?} (members of group {group} that have not been reaped: {:?})", members.iter().map(|j| procs[*j].pid.0).collect::<Vec<_>>());
+                        }
+                        if self_hit {
+                            fail!("kill-result", "op #{i} {op:?}: kill returned although the sender stopped or terminated itself");
+                        }
+                    }
+                    Poll::Pending => {
+                        if !self_hit {
+                            fail!("kill-result", "op #{i} {op:?}: kill does not return although the sender is still running");
+                        }
+                    }
                 }
             }
             KOp::Wait(p, c) => {
@@ -441,7 +548,10 @@ pub fn run(h: &KHist, reach: &mut BTreeMap<&'static str, u64>) -> Option<(String
             let got = sys_of(m.pid).caught_signals().into_iter().filter(|s| *s == SIGCHLD).count() as u32;
             // a continued parent whose own pending signals killed it is not Running; several
             // changes while it was stopped coalesce into one
-            if got != expected[k] {
+            // (several children changing state in one step - a signal sent to a
+            // group - may be notified by one SIGCHLD or by one each)
+            let coalesced = expected[k] > 1 && (1..=expected[k]).contains(&got);
+            if got != expected[k] && !coalesced {
                 fail!(
                     "sigchld",
                     "after op #{i} {op:?}: process {} received {got} SIGCHLD, the model says {} (state changes of its children in this step)",
@@ -457,6 +567,9 @@ pub fn run(h: &KHist, reach: &mut BTreeMap<&'static str, u64>) -> Option<(String
             let Some(p) = st.processes.get(&m.pid) else {
                 fail!("process-table", "after op #{i} {op:?}: process {} vanished from the table", m.pid);
             };
+            if m.st != St::Reaped && p.pgid() != m.pgid {
+                fail!("process-group", "after op #{i} {op:?}: process {} is in group {}, the model says {}", m.pid, p.pgid(), m.pgid);
+            }
             let got = status_of(p.state());
             let want = match m.st {
                 St::Running => "running".to_string(),
